@@ -1,8 +1,13 @@
-From Coq Require Import ZArith List Bool Lia.
+(* Proofs for property C11 (metadata normalisation); the model is
+   Model/C11.v, the generated table Gen/MetaTable.v. *)
+From Coq Require Import ZArith List Bool Lia ZifyBool ZifyNat.
 From Verif Require Import Model.C11.
 Import ListNotations.
 Open Scope Z_scope.
 
+(* ------------------------------------------------------------------ *)
+(* strings                                                             *)
+(* ------------------------------------------------------------------ *)
 Lemma lower_c_idem : forall c, lower_c (lower_c c) = lower_c c.
 Proof.
   intro c. unfold lower_c, is_upper.
@@ -15,3 +20,541 @@ Proof.
   induction s as [|c s IH]; [reflexivity|].
   cbn [lower map]. rewrite lower_c_idem. f_equal. exact IH.
 Qed.
+
+Lemma lower_nil : forall s, lower s = [] -> s = [].
+Proof. intros [|c s] H; [reflexivity|discriminate H]. Qed.
+
+Lemma str_eqb_refl : forall s, str_eqb s s = true.
+Proof.
+  induction s as [|c s IH]; [reflexivity|].
+  cbn [str_eqb]. rewrite Z.eqb_refl. exact IH.
+Qed.
+
+Lemma str_eqb_eq : forall a b, str_eqb a b = true -> a = b.
+Proof.
+  induction a as [|x a IH]; intros [|y b] H; try discriminate H.
+  - reflexivity.
+  - cbn [str_eqb] in H. apply andb_true_iff in H. destruct H as [H1 H2].
+    apply Z.eqb_eq in H1. subst y. f_equal. apply IH. exact H2.
+Qed.
+
+(* ------------------------------------------------------------------ *)
+(* results of the converters have a canonical shape                    *)
+(* ------------------------------------------------------------------ *)
+Lemma bind_ok : forall {A B} (r : res A) (f : A -> res B) b,
+    bind r f = Ok b -> exists a, r = Ok a /\ f a = Ok b.
+Proof.
+  intros A B [a|e|] f b H; cbn in H; try discriminate H.
+  exists a. split; [reflexivity|exact H].
+Qed.
+
+Lemma int_of_fl_of_int : forall n, int_of_fl (fl_of_int n) = Ok n.
+Proof.
+  intro n. unfold int_of_fl, fl_of_int. f_equal.
+  rewrite Z.mul_comm. apply Z.quot_mul. lia.
+Qed.
+
+Lemma bool_of_fl_of_bool : forall b, bool_of_fl (fl_of_bool b) = b.
+Proof. intros [|]; reflexivity. Qed.
+
+Lemma fint_out : forall v w, fint v = Ok w -> exists n, w = VS (SInt n).
+Proof.
+  intros v w H. unfold fint in H. apply bind_ok in H.
+  destruct H as [n [_ H]]. injection H as H. exists n. symmetry. exact H.
+Qed.
+
+Lemma fint_z_int : forall n, fint_z (VS (SInt n)) = Ok n.
+Proof. intro n. cbn. apply int_of_fl_of_int. Qed.
+
+Lemma fbool_out : forall v w, fbool v = Ok w -> exists b, w = VS (SBool b).
+Proof.
+  intros v w H. unfold fbool in H. apply bind_ok in H.
+  destruct H as [b [_ H]]. injection H as H. exists b. symmetry. exact H.
+Qed.
+
+Lemma fbool_bool : forall b, fbool (VS (SBool b)) = Ok (VS (SBool b)).
+Proof. intro b. cbn. rewrite bool_of_fl_of_bool. reflexivity. Qed.
+
+Lemma fbool_npbool : forall b, fbool (VS (SNpBool b)) = Ok (VS (SBool b)).
+Proof. intro b. cbn. rewrite bool_of_fl_of_bool. reflexivity. Qed.
+
+(* fboolorfloat returns a bool, or a float that is not zero *)
+Lemma fboolorfloat_out : forall v w,
+    fboolorfloat v = Ok w ->
+    (exists b, w = VS (SBool b)) \/
+    (exists f, w = VS (SFloat f) /\ fl_is_zero f = false).
+Proof.
+  intros v w H.
+  assert (G : forall z, eq_zero v = Ok z ->
+              (if z then fbool v
+               else if is_real v
+                    then bind (py_float v) (fun f => Ok (VS (SFloat f)))
+                    else Raise EValue) = Ok w ->
+              (exists b, w = VS (SBool b)) \/
+              (exists f, w = VS (SFloat f) /\ fl_is_zero f = false)).
+  { intros z Ez Hz. destruct z.
+    - left. apply fbool_out with (v := v). exact Hz.
+    - destruct (is_real v) eqn:Er; [|discriminate Hz].
+      apply bind_ok in Hz. destruct Hz as [f [Hf Hw]].
+      injection Hw as Hw. right. exists f. split; [symmetry; exact Hw|].
+      destruct v as [x| | | | |]; try discriminate Er.
+      destruct x; try discriminate Er; cbn in Ez, Hf;
+        injection Ez as Ez; injection Hf as Hf; subst f.
+      + destruct b; [reflexivity|discriminate Ez].
+      + unfold fl_is_zero, fl_of_int. lia.
+      + exact Ez.
+      + unfold fl_is_zero, fl_of_int. lia.
+      + exact Ez.
+      + exact Ez. }
+  unfold fboolorfloat in H.
+  destruct v as [x|t l|t l|d x|d l|d l].
+  - destruct x;
+      try (left; exact (fbool_out _ _ H));
+      try (apply bind_ok in H; destruct H as [z [Ez Hz]];
+           apply (G z Ez Hz)).
+  - apply bind_ok in H; destruct H as [z [Ez Hz]]; apply (G z Ez Hz).
+  - apply bind_ok in H; destruct H as [z [Ez Hz]]; apply (G z Ez Hz).
+  - apply bind_ok in H; destruct H as [z [Ez Hz]]; apply (G z Ez Hz).
+  - apply bind_ok in H; destruct H as [z [Ez Hz]]; apply (G z Ez Hz).
+  - apply bind_ok in H; destruct H as [z [Ez Hz]]; apply (G z Ez Hz).
+Qed.
+
+Lemma fboolorfloat_float : forall f,
+    fl_is_zero f = false ->
+    fboolorfloat (VS (SFloat f)) = Ok (VS (SFloat f)).
+Proof. intros f H. cbn. rewrite H. reflexivity. Qed.
+
+Lemma fboolorfloat_npf64 : forall f,
+    fl_is_zero f = false ->
+    fboolorfloat (VS (SNpF64 f)) = Ok (VS (SFloat f)).
+Proof. intros f H. cbn. rewrite H. reflexivity. Qed.
+
+(* fintlist returns a list of Python ints *)
+Lemma fintlist_items_out : forall its r,
+    fintlist_items its = Ok r -> exists ns, r = map SInt ns.
+Proof.
+  induction its as [|it its IH]; intros r H.
+  - injection H as H. subst r. exists []. reflexivity.
+  - cbn [fintlist_items] in H.
+    destruct (match it with
+              | VS x => truthy_or_number x
+              | VSeq _ l' => match l' with [] => false | _ => true end
+              | _ => true end).
+    + apply bind_ok in H. destruct H as [n [_ H]].
+      apply bind_ok in H. destruct H as [r' [Hr H]].
+      injection H as H. subst r.
+      destruct (IH r' Hr) as [ns Hns]. exists (n :: ns).
+      cbn [map]. rewrite Hns. reflexivity.
+    + apply IH. exact H.
+Qed.
+
+Lemma fintlist_items_ints : forall ns,
+    fintlist_items (map VS (map SInt ns)) = Ok (map SInt ns).
+Proof.
+  induction ns as [|n ns IH]; [reflexivity|].
+  cbn [map fintlist_items truthy_or_number].
+  rewrite fint_z_int. cbn [bind]. rewrite IH. reflexivity.
+Qed.
+
+Lemma fintlist_out : forall v w,
+    fintlist v = Ok w -> exists ns, w = VSeq false (map SInt ns).
+Proof.
+  intros v w H. unfold fintlist in H.
+  apply bind_ok in H. destruct H as [its [_ H]].
+  apply bind_ok in H. destruct H as [r [Hr H]].
+  injection H as H. subst w.
+  destruct (fintlist_items_out its r Hr) as [ns Hns].
+  exists ns. rewrite Hns. reflexivity.
+Qed.
+
+Lemma fintlist_ints : forall ns,
+    fintlist (VSeq false (map SInt ns)) = Ok (VSeq false (map SInt ns)).
+Proof.
+  intro ns. unfold fintlist. cbn [bind].
+  rewrite fintlist_items_ints. reflexivity.
+Qed.
+
+Lemma f1d_out : forall v w,
+    f1dfloatduple v = Ok w ->
+    exists a b, w = VSeq true [SFloat a; SFloat b].
+Proof.
+  intros v w H. unfold f1dfloatduple in H.
+  apply bind_ok in H. destruct H as [fs [_ H]].
+  destruct fs as [|a [|b [|c fs]]]; try discriminate H.
+  injection H as H. exists a, b. symmetry. exact H.
+Qed.
+
+Lemma f2d_out : forall v w,
+    f2dfloatarray v = Ok w ->
+    (exists x, w = VArr0 DF64 x) \/ (exists l, w = VArr1 DF64 l) \/
+    (exists l, w = VArr2 DF64 l).
+Proof.
+  intros v w H. unfold f2dfloatarray in H.
+  destruct v as [x|t l|t l|d x|d l|d l].
+  - apply bind_ok in H. destruct H as [f [_ H]]. injection H as H.
+    left. exists f. symmetry. exact H.
+  - apply bind_ok in H. destruct H as [f [_ H]]. injection H as H.
+    right. left. exists f. symmetry. exact H.
+  - destruct l as [|r l'].
+    + injection H as H. right. left. exists []. symmetry. exact H.
+    + destruct (all_len (length r) (r :: l')); [|discriminate H].
+      apply bind_ok in H. destruct H as [f [_ H]]. injection H as H.
+      right. right. exists f. symmetry. exact H.
+  - injection H as H. left. exists x. symmetry. exact H.
+  - injection H as H. right. left. exists l. symmetry. exact H.
+  - injection H as H. right. right. exists l. symmetry. exact H.
+Qed.
+
+Lemma py_str_out : forall v w,
+    py_str v = Ok w -> exists s, w = VS (SStr s).
+Proof.
+  intros v w H. unfold py_str in H.
+  destruct v as [x| | | | |]; try discriminate H.
+  apply bind_ok in H. destruct H as [s [_ H]]. injection H as H.
+  exists s. symmetry. exact H.
+Qed.
+
+Lemma py_floatv_out : forall v w,
+    py_floatv v = Ok w -> exists f, w = VS (SFloat f).
+Proof.
+  intros v w H. unfold py_floatv in H.
+  apply bind_ok in H. destruct H as [f [_ H]]. injection H as H.
+  exists f. symmetry. exact H.
+Qed.
+
+(* ------------------------------------------------------------------ *)
+(* T1: every converter is idempotent                                   *)
+(* ------------------------------------------------------------------ *)
+Theorem apply_idempotent : forall c v w,
+    apply c v = Ok w -> apply c w = Ok w.
+Proof.
+  intros c v w H. destruct c; cbn [apply] in *.
+  - destruct (py_str_out v w H) as [s Hs]. subst w. reflexivity.
+  - destruct (py_floatv_out v w H) as [f Hf]. subst w. reflexivity.
+  - destruct (fint_out v w H) as [n Hn]. subst w.
+    unfold fint. rewrite fint_z_int. reflexivity.
+  - destruct (fbool_out v w H) as [b Hb]. subst w. apply fbool_bool.
+  - destruct (fboolorfloat_out v w H) as [[b Hb]|[f [Hf Hz]]]; subst w.
+    + apply fbool_bool.
+    + apply fboolorfloat_float. exact Hz.
+  - destruct (fintlist_out v w H) as [ns Hns]. subst w. apply fintlist_ints.
+  - destruct (f1d_out v w H) as [a [b Hab]]. subst w. reflexivity.
+  - destruct (f2d_out v w H) as [[x Hx]|[[l Hl]|[l Hl]]]; subst w;
+      reflexivity.
+  - unfold lcstr in *. destruct v as [x| | | | |]; try discriminate H.
+    destruct x; try discriminate H; injection H as H; subst w;
+      rewrite lower_idem; reflexivity.
+  - reflexivity.
+Qed.
+
+(* ------------------------------------------------------------------ *)
+(* results of converters are never "", None or bytes (for such inputs)  *)
+(* ------------------------------------------------------------------ *)
+Definition clean (v : value) : bool :=
+  match v with
+  | VS (SStr []) | VS SNone | VS (SBytes _) => false
+  | _ => true
+  end.
+
+Lemma digits_fuel_nonempty : forall fuel n acc,
+    acc <> [] -> digits_fuel fuel n acc <> [].
+Proof.
+  induction fuel as [|f IH]; intros n acc Ha; cbn [digits_fuel].
+  - exact Ha.
+  - destruct (n <? 10); [discriminate|]. apply IH. discriminate.
+Qed.
+
+Lemma digits_of_nonempty : forall n, digits_of n <> [].
+Proof.
+  intro n. unfold digits_of. cbn [digits_fuel].
+  destruct (n <? 10); [discriminate|].
+  apply digits_fuel_nonempty. discriminate.
+Qed.
+
+Lemma app_nonempty_r : forall (a b : str), b <> [] -> a ++ b <> [].
+Proof. intros [|x a] b Hb; [exact Hb|discriminate]. Qed.
+
+Lemma repr_fl_nonempty : forall f s, repr_fl f = Ok s -> s <> [].
+Proof.
+  intros f s H. destruct f; unfold repr_fl in H;
+    try (injection H as H; subst s; discriminate).
+  match type of H with
+  | context [if ?c then _ else _] => destruct c; [discriminate H|]
+  end.
+  injection H as H. subst s.
+  apply app_nonempty_r. apply app_nonempty_r. cbn [app]. discriminate.
+Qed.
+
+Lemma py_str_clean : forall v w,
+    clean v = true -> py_str v = Ok w -> clean w = true.
+Proof.
+  intros v w Hc H. unfold py_str in H.
+  destruct v as [x| | | | |]; try discriminate H.
+  apply bind_ok in H. destruct H as [s [Hs H]]. injection H as H. subst w.
+  assert (s <> []) as Hne.
+  { destruct x; try discriminate Hc.
+    - injection Hs as Hs. subst s. destruct s0; [discriminate Hc|discriminate].
+    - injection Hs as Hs. subst s. destruct b; discriminate.
+    - injection Hs as Hs. subst s. unfold repr_int.
+      destruct (n <? 0); [discriminate|apply digits_of_nonempty].
+    - exact (repr_fl_nonempty _ _ Hs).
+    - injection Hs as Hs. subst s. destruct b; discriminate.
+    - injection Hs as Hs. subst s. unfold repr_int.
+      destruct (n <? 0); [discriminate|apply digits_of_nonempty].
+    - exact (repr_fl_nonempty _ _ Hs).
+    - exact (repr_fl_nonempty _ _ Hs). }
+  destruct s; [contradiction|reflexivity].
+Qed.
+
+Lemma apply_clean : forall c v w,
+    clean v = true -> apply c v = Ok w -> clean w = true.
+Proof.
+  intros c v w Hc H. destruct c; cbn [apply] in H.
+  - apply py_str_clean with (v := v); assumption.
+  - destruct (py_floatv_out v w H) as [f Hf]. subst w. reflexivity.
+  - destruct (fint_out v w H) as [n Hn]. subst w. reflexivity.
+  - destruct (fbool_out v w H) as [b Hb]. subst w. reflexivity.
+  - destruct (fboolorfloat_out v w H) as [[b Hb]|[f [Hf _]]]; subst w;
+      reflexivity.
+  - destruct (fintlist_out v w H) as [ns Hns]. subst w. reflexivity.
+  - destruct (f1d_out v w H) as [a [b Hab]]. subst w. reflexivity.
+  - destruct (f2d_out v w H) as [[x Hx]|[[l Hl]|[l Hl]]]; subst w;
+      reflexivity.
+  - unfold lcstr in H. destruct v as [x| | | | |]; try discriminate H.
+    destruct x; try discriminate H; try discriminate Hc.
+    injection H as H. subst w. destruct s; [discriminate Hc|reflexivity].
+  - injection H as H. subst w. exact Hc.
+Qed.
+
+Section Dict.
+  Variable tbl : list row.
+  Variable feats : list str.
+  Variable sections : list str.
+
+  Notation setitem := (setitem tbl feats).
+  Notation verify := (verify tbl feats).
+  Notation func_of := (func_of tbl).
+  Notation key_exists := (key_exists tbl feats).
+
+  Lemma dget_dset : forall d k v, dget (dset d k v) k = Some v.
+  Proof.
+    induction d as [|[k' v'] d IH]; intros k v; cbn [dset dget].
+    - rewrite str_eqb_refl. reflexivity.
+    - destruct (str_eqb k k') eqn:E; cbn [dget]; rewrite E.
+      + reflexivity.
+      + apply IH.
+  Qed.
+
+  Lemma dset_same : forall d k v, dget d k = Some v -> dset d k v = d.
+  Proof.
+    induction d as [|[k' v'] d IH]; intros k v H; cbn [dset dget] in *.
+    - discriminate H.
+    - destruct (str_eqb k k') eqn:E.
+      + injection H as H. subst v'. reflexivity.
+      + f_equal. apply IH. exact H.
+  Qed.
+
+  Lemma decode_clean : forall v v1, decode v = Ok v1 ->
+      (match v1 with VS (SBytes _) => false | _ => true end) = true.
+  Proof.
+    intros v v1 H. unfold decode in H.
+    destruct v as [x| | | | |]; try (injection H as H; subst v1; reflexivity).
+    destruct x; try (injection H as H; subst v1; reflexivity).
+    destruct (forallb (fun c => c <? 128) s); [|discriminate H].
+    injection H as H. subst v1. reflexivity.
+  Qed.
+
+  Lemma decode_of_clean : forall v, clean v = true -> decode v = Ok v.
+  Proof.
+    intros v H. destruct v as [x| | | | |]; try reflexivity.
+    destruct x; try reflexivity. discriminate H.
+  Qed.
+
+  (* the warnings of an assignment *)
+  Definition warns (sec lk : str) (v : value) : list warning :=
+    (match verify sec lk with
+     | Some w => [w]
+     | None => match v with VS (SStr []) => [WEmpty] | _ => [] end
+     end) ++ (match v with VS SNone => [WBadValue] | _ => [] end).
+
+  Lemma setitem_eq : forall sec key v0 d,
+      setitem sec key v0 d =
+      match decode v0 with
+      | Unmod => OUnmod
+      | Raise e => Exc e
+      | Ok v =>
+          match warns sec (lower key) v with
+          | [] => match apply (func_of sec (lower key)) v with
+                  | Ok w => Done (dset d (lower key) w) []
+                  | Raise e => Exc e
+                  | Unmod => OUnmod
+                  end
+          | ws => Done d ws
+          end
+      end.
+  Proof. reflexivity. Qed.
+
+  Lemma warns_nil : forall sec lk v,
+      warns sec lk v = [] <->
+      (verify sec lk = None /\ v <> VS (SStr []) /\ v <> VS SNone).
+  Proof.
+    intros sec lk v. unfold warns. split.
+    - intro H. apply app_eq_nil in H. destruct H as [H1 H2].
+      destruct (verify sec lk); [discriminate H1|].
+      split; [reflexivity|]. split; intro E; subst v; discriminate.
+    - intros [Hv [H1 H2]]. rewrite Hv.
+      destruct v as [x| | | | |]; try reflexivity.
+      destruct x; try reflexivity; [contradiction|].
+      destruct s; [contradiction|reflexivity].
+  Qed.
+
+  Lemma warns_nil_clean : forall sec lk v,
+      verify sec lk = None -> clean v = true -> warns sec lk v = [].
+  Proof.
+    intros sec lk v Hv Hc. apply warns_nil. split; [exact Hv|].
+    split; intro E; subst v; discriminate Hc.
+  Qed.
+
+  (* T2: assigning the stored value again changes nothing *)
+  Theorem setitem_idempotent : forall sec key v d d',
+      setitem sec key v d = Done d' [] ->
+      exists w, dget d' (lower key) = Some w /\
+                setitem sec key w d' = Done d' [].
+  Proof.
+    intros sec key v d d' H. rewrite setitem_eq in H.
+    destruct (decode v) as [v1|e|] eqn:Ed; try discriminate H.
+    destruct (warns sec (lower key) v1) as [|w0 ws] eqn:Ew;
+      [|discriminate H].
+    destruct (apply (func_of sec (lower key)) v1) as [w|e|] eqn:Ea;
+      try discriminate H.
+    injection H as H. subst d'. exists w. split; [apply dget_dset|].
+    apply warns_nil in Ew. destruct Ew as [Hv [Hne Hnn]].
+    assert (clean v1 = true) as Hc1.
+    { pose proof (decode_clean v v1 Ed) as Hb.
+      destruct v1 as [x| | | | |]; try reflexivity.
+      destruct x; try reflexivity; try discriminate Hb;
+        [contradiction|]. destruct s; [contradiction|reflexivity]. }
+    pose proof (apply_clean _ _ _ Hc1 Ea) as Hcw.
+    rewrite setitem_eq. rewrite (decode_of_clean w Hcw).
+    rewrite (warns_nil_clean _ _ _ Hv Hcw).
+    rewrite (apply_idempotent _ _ _ Ea).
+    rewrite dset_same; [reflexivity|apply dget_dset].
+  Qed.
+
+  (* T3: only the lower-cased key matters *)
+  Theorem setitem_case_insensitive : forall sec key key' v d,
+      lower key = lower key' -> setitem sec key v d = setitem sec key' v d.
+  Proof.
+    intros sec key key' v d H. rewrite !setitem_eq. rewrite H. reflexivity.
+  Qed.
+
+  Corollary setitem_lower : forall sec key v d,
+      setitem sec (lower key) v d = setitem sec key v d.
+  Proof.
+    intros. apply setitem_case_insensitive. apply lower_idem.
+  Qed.
+
+  (* T4: unknown keys, "" and None are rejected with a warning *)
+  Theorem setitem_rejects : forall sec key v v1 d,
+      decode v = Ok v1 ->
+      verify sec (lower key) <> None \/ v1 = VS (SStr []) \/ v1 = VS SNone ->
+      exists w ws, setitem sec key v d = Done d (w :: ws).
+  Proof.
+    intros sec key v v1 d Ed H. rewrite setitem_eq, Ed.
+    destruct (warns sec (lower key) v1) as [|w ws] eqn:Ew.
+    - apply warns_nil in Ew. destruct Ew as [Hv [H1 H2]].
+      destruct H as [H|[H|H]]; contradiction.
+    - exists w, ws. reflexivity.
+  Qed.
+
+  (* T5: the assignment implements the specification *)
+  Theorem setitem_meets_spec : forall sec key v d,
+      match spec_store tbl feats sec key v with
+      | Ok (Some w) => setitem sec key v d = Done (dset d (lower key) w) []
+      | Ok None => exists w ws, setitem sec key v d = Done d (w :: ws)
+      | Raise e => setitem sec key v d = Exc e
+      | Unmod => setitem sec key v d = OUnmod
+      end.
+  Proof.
+    intros sec key v d. unfold spec_store. rewrite setitem_eq.
+    destruct (decode v) as [v1|e|] eqn:Ed; cbn [bind]; try reflexivity.
+    unfold warns.
+    destruct (C11.verify tbl feats sec (lower key)) as [w0|] eqn:Ev.
+    - cbn [app]. eexists. eexists. reflexivity.
+    - destruct v1 as [x|t l|t l|dt x|dt l|dt l]; cbn [app];
+        try (destruct (apply (C11.func_of tbl sec (lower key)) _);
+             reflexivity).
+      destruct x; cbn [app];
+        try (destruct (apply (C11.func_of tbl sec (lower key)) _);
+             reflexivity).
+      + eexists. eexists. reflexivity.
+      + destruct s; cbn [app].
+        * eexists. eexists. reflexivity.
+        * destruct (apply (C11.func_of tbl sec (lower key)) _); reflexivity.
+  Qed.
+
+  (* T6: a configuration file entry for a known key gives the same result
+     as assigning its (stripped, non-empty) text *)
+  Definition file_text (text : str) : str :=
+    strip (strip_dq (strip_sq (32 :: rstrip_by is_ws text))).
+
+  Theorem file_route_agrees : forall sec key text d,
+      let var := lower (strip key) in
+      key_exists sec var = true ->
+      file_text text <> [] ->
+      file_route tbl feats sec key text d
+      = setitem sec var (VS (SStr (file_text text))) d.
+  Proof.
+    intros sec key text d var Hk Hne.
+    unfold file_route, load_value. fold var. fold (file_text text).
+    destruct (file_text text) as [|c0 val] eqn:Et; [contradiction|].
+    rewrite Hk. rewrite setitem_eq.
+    assert (lower var = var) as Hlv by (apply lower_idem).
+    rewrite Hlv. cbn [decode].
+    assert (verify sec var = None) as Hv.
+    { unfold C11.verify. rewrite Hk. reflexivity. }
+    assert (clean (VS (SStr (c0 :: val))) = true) as Hc by reflexivity.
+    rewrite (warns_nil_clean _ _ _ Hv Hc).
+    destruct (apply (C11.func_of tbl sec var) (VS (SStr (c0 :: val))))
+      as [w|e|] eqn:Ea; cbn [bind]; try reflexivity.
+    pose proof (apply_clean _ _ _ Hc Ea) as Hcw.
+    assert ((match w with VS (SStr []) => Ok None | _ => Ok (Some w) end)
+            = Ok (Some w)) as Hm.
+    { destruct w as [x| | | | |]; try reflexivity.
+      destruct x; try reflexivity. destruct s; [discriminate Hcw|reflexivity]. }
+    rewrite Hm. rewrite setitem_eq, Hlv.
+    rewrite (decode_of_clean w Hcw).
+    rewrite (warns_nil_clean _ _ _ Hv Hcw).
+    rewrite (apply_idempotent _ _ _ Ea). reflexivity.
+  Qed.
+
+  (* update / constructor: item assignment key by key *)
+  Theorem update_single : forall sec k v d,
+      update tbl feats sec [(k, v)] d =
+      match setitem sec k v d with
+      | Done d' ws => Done d' (ws ++ [])
+      | o => o
+      end.
+  Proof. reflexivity. Qed.
+
+  Theorem update_app : forall sec l1 l2 d,
+      update tbl feats sec (l1 ++ l2) d =
+      match update tbl feats sec l1 d with
+      | Done d1 ws1 =>
+          match update tbl feats sec l2 d1 with
+          | Done d2 ws2 => Done d2 (ws1 ++ ws2)
+          | o => o
+          end
+      | o => o
+      end.
+  Proof.
+    intros sec l1. induction l1 as [|[k v] l1 IH]; intros l2 d.
+    - cbn [app update]. destruct (update tbl feats sec l2 d); reflexivity.
+    - cbn [app update].
+      destruct (C11.setitem tbl feats sec k v d) as [d' ws|e|]; try reflexivity.
+      rewrite IH.
+      destruct (update tbl feats sec l1 d') as [d1 ws1|e|]; try reflexivity.
+      destruct (update tbl feats sec l2 d1) as [d2 ws2|e|]; try reflexivity.
+      rewrite app_assoc. reflexivity.
+  Qed.
+End Dict.
